@@ -41,7 +41,7 @@ def run(ctx):
     rng = random.Random(ctx.seed)
     w = Worker()
     try:
-        if drv is None:
+        if getattr(drv, "unavailable", False):
             rep.violation("driver-build", "model driver does not build", {"kind": "driver"}, found_input=False)
             return
         # 1. table obligations: rows that fail (same predicates as the theorems)
